@@ -44,7 +44,7 @@ class LegalOperations(Contract):
         th = ex.lib.theory(ex)
         x = fresh("x", Atom)
         V = args["self"].fields["variables"].mem
-        return z3.And(wf_graph(g), th.acyclic(g.fields["_E"]), z3.ForAll([x], V[x] == N_(g, x)))
+        return z3.And(wf_graph(g), th.acyclic(g.fields["@E"]), z3.ForAll([x], V[x] == N_(g, x)))
 
     def snapshot(self, ex, st, args):
         return graph_snapshot(args["model"])
@@ -53,7 +53,7 @@ class LegalOperations(Contract):
         if not isinstance(result, Coll) or result.mem is None:
             return z3.BoolVal(False)
         g = args["model"]
-        E = old["_E"]
+        E = old["@E"]
         P = ex.lib.theory(ex).path(E)
         V = args["self"].fields["variables"].mem
         tabu, black, white, fixed = (args[k].mem for k in ("tabu_list", "black_list", "white_list", "fixed_edges"))
